@@ -106,6 +106,11 @@ def run(chk):
     for n in range(0, maxn + 1):
         for st in (("zero", "identity", "other", "alias") if n else ("zero", "identity", "other")):
             light.append(("MultiScalarMult n=%d %s" % (n, st), lambda n=n, st=st: run_one(base, chk, "MultiScalarMult", st, n)))
+    if thorough:
+        for n in (5, 6, 8):
+            for st in ("zero", "other"):
+                light.append(("MultiScalarMult n=%d %s" % (n, st), lambda n=n, st=st: run_one(base, chk, "MultiScalarMult", st, n)))
+        chk.bounds.append("thorough: MultiScalarMult additionally for n in {5, 6, 8} terms")
     run_kernels(chk, heavy + items + light)
     from sym import validate
     validate.scalar_kernels(base, chk, 100 if chk.tier == "thorough" else 8)
